@@ -213,7 +213,7 @@ def h_dispatch(sk):
 def rt_random(seed, n):
     rnd = _random.Random(seed)
     out = []
-    fams = M.family_basic('thorough', seed) + M.family_undiscounted('quick')
+    fams = M.family_basic('thorough', seed) + M.family_undiscounted('quick') + EXTRA
     for k in range(n):
         sk = fams[k % len(fams)]
         g = rnd.choice([0.5, 0.9, 'one'])
@@ -260,9 +260,17 @@ def rt_rowsum(seed, n):
     return out
 
 
+# initial probability directly ON an absorbing state, next to non-absorbing initial states (explicit and implicit absorbing goal): the occupancy of the
+# absorbing state is its initial mass PLUS the inflow
+EXTRA = [M.Skel('s3-init-on-absorbing', ['s', 'm', 'g'], {'s': ('a', 'b'), 'm': ('a',), 'g': ('a',)},
+                {('s', 'a'): ('m', 'g'), ('s', 'b'): ('g',), ('m', 'a'): ('g', 's'), ('g', 'a'): ('g',)}, absorbing=['g'], init=['g', 's']),
+         M.Skel('s3-init-on-implicit-absorbing', [0, 1, 2], {0: ('x', 'y'), 1: ('y',), 2: ('x',)},
+                {(0, 'x'): (0, 1), (0, 'y'): (1, 2), (1, 'y'): (0, 2), (2, 'x'): (2,)}, init=[2, 0, 1])]
+
+
 def tasks(tier, seed):
     T = []
-    fam = M.family_basic(tier, seed)
+    fam = M.family_basic(tier, seed) + EXTRA
     modes = ['full', 'rand', 'det-first', 'det-last']
     for sk in fam:
         for pm in modes:
